@@ -428,6 +428,26 @@ New_grfile(HFILEID f)
     return g;
 } /* end New_grfile() */
 
+/* -------------------------- GRIget_nt ------------------------ */
+/*
+   Reads the number-type element (DFTAG_NT, 4 bytes) that a dimension record (DFTAG_ID/DFTAG_LD)
+   names into ntstring[4].  A record without number type (tag/ref 0/0: DFGRaddlut writes such
+   palette dimensions) yields DFNT_NONE.  0/0 must not reach Hgetelement, where it is the wildcard
+   for the first element of the file, and no element longer than the buffer may be read into it.
+ */
+static int
+GRIget_nt(int32 file_id, uint16 nt_tag, uint16 nt_ref, uint8 ntstring[4])
+{
+    if (nt_tag == DFTAG_WILDCARD || nt_ref == DFREF_WILDCARD) {
+        memset(ntstring, 0, 4);
+        ntstring[1] = DFNT_NONE;
+        return SUCCEED;
+    }
+    if (Hlength(file_id, nt_tag, nt_ref) != 4)
+        return FAIL;
+    return (Hgetelement(file_id, nt_tag, nt_ref, ntstring) == FAIL) ? FAIL : SUCCEED;
+} /* end GRIget_nt() */
+
 /* -------------------------- Store_imginfo ------------------------ */
 /*
    Stores information into the image_info_struct.
@@ -924,8 +944,8 @@ GRIget_image_list(int32 file_id, gr_info_t *gr_ptr)
                                         HGOTO_ERROR(DFE_READERROR, FAIL);
 
                                     /* read NT */
-                                    if (Hgetelement(file_id, new_image->lut_dim.nt_tag,
-                                                    new_image->lut_dim.nt_ref, ntstring) == FAIL)
+                                    if (GRIget_nt(file_id, new_image->lut_dim.nt_tag,
+                                                  new_image->lut_dim.nt_ref, ntstring) == FAIL)
                                         HGOTO_ERROR(DFE_READERROR, FAIL);
 
                                     /* check for any valid NT */
@@ -960,8 +980,8 @@ GRIget_image_list(int32 file_id, gr_info_t *gr_ptr)
                                         HGOTO_ERROR(DFE_READERROR, FAIL);
 
                                     /* read NT */
-                                    if (Hgetelement(file_id, new_image->img_dim.nt_tag,
-                                                    new_image->img_dim.nt_ref, ntstring) == FAIL)
+                                    if (GRIget_nt(file_id, new_image->img_dim.nt_tag,
+                                                  new_image->img_dim.nt_ref, ntstring) == FAIL)
                                         HGOTO_ERROR(DFE_READERROR, FAIL);
 
                                     /* check for any valid NT */
@@ -1137,8 +1157,8 @@ GRIget_image_list(int32 file_id, gr_info_t *gr_ptr)
                                 }
 
                                 /* read NT */
-                                if (Hgetelement(file_id, new_image->lut_dim.nt_tag, new_image->lut_dim.nt_ref,
-                                                ntstring) == FAIL) {
+                                if (GRIget_nt(file_id, new_image->lut_dim.nt_tag, new_image->lut_dim.nt_ref,
+                                              ntstring) == FAIL) {
                                     DFdifree(GroupID);
                                     HGOTO_ERROR(DFE_READERROR, FAIL);
                                 }
@@ -1176,8 +1196,8 @@ GRIget_image_list(int32 file_id, gr_info_t *gr_ptr)
                                 }
 
                                 /* read NT */
-                                if (Hgetelement(file_id, new_image->img_dim.nt_tag, new_image->img_dim.nt_ref,
-                                                ntstring) == FAIL) {
+                                if (GRIget_nt(file_id, new_image->img_dim.nt_tag, new_image->img_dim.nt_ref,
+                                              ntstring) == FAIL) {
                                     DFdifree(GroupID);
                                     HGOTO_ERROR(DFE_GETELEM, FAIL);
                                 }
